@@ -708,15 +708,23 @@ def completion_watch(w: World):
                                         repr(r.result)[:120] if isinstance(r.result, (list, dict, str, int, float, tuple)) else None)
                                        for hid, r in ev.event_results.items()))
 
+    state = {'tick': 0, 'units': 0}
+
     def watch():
+        # Cost bound: comparing every observed event after every callback is quadratic in the size of the run.  While
+        # the observed events hold <= 96 handler results in total every callback is checked; beyond that the full
+        # comparison runs every (results // 96)-th callback (a change after completion persists, it is still seen).
+        state['tick'] += 1
+        sweep = state['tick'] % max(1, state['units'] // 96) == 0
         for name, ev in w.events.items():
             sig = ev._event_completed_signal
             if name not in snaps:
                 if sig is not None and sig.is_set() and ev.event_status == 'completed':
                     snaps[name] = snap(ev)
+                    state['units'] += len(ev.event_results) + 1
                     w.rec('observed_complete', name, tuple(ev.event_path))
                 continue
-            if name in flagged:
+            if name in flagged or not sweep:
                 continue
             now = snap(ev)
             if now != snaps[name] or not sig.is_set():
